@@ -403,10 +403,10 @@ impl TimeDelta {
         let (extra_secs, nanos) = div_mod_floor_64(total_nanos, NANOS_PER_SEC as i64);
         // Multiply seconds as i128 to prevent overflow
         let secs: i128 = self.secs as i128 * rhs as i128 + extra_secs as i128;
-        if secs <= i64::MIN as i128 || secs >= i64::MAX as i128 {
+        if secs < MIN.secs as i128 || secs > MAX.secs as i128 {
             return None;
         };
-        Some(TimeDelta { secs: secs as i64, nanos: nanos as i32 })
+        TimeDelta::new(secs as i64, nanos as u32)
     }
 
     /// Divide a `TimeDelta` with a i32, returning `None` if dividing by 0.
